@@ -5,7 +5,7 @@ import StamModel.StamqlQ
 
   Modelled: `ADD ANNOTATION [?name] [WITH assignment*] [{ sub-queries }]` with the assignments ID, DATA (null, boolean,
   integer, float, string values), TARGET ?name [OFFSET …], COMPOSITE, MULTI, DIRECTIONAL; `DELETE ANNOTATION [?name]
-  [{ sub-queries }]`. Not modelled: `@` attributes (the model answers `.err "unmodelled"`).
+  [{ sub-queries }]`; `Assignment::to_string` and `Query::to_string` on these queries (`printQQ`). Not modelled: `@` attributes (the model answers `.err "unmodelled"`).
 -/
 namespace Stam.QL
 
@@ -161,5 +161,48 @@ def parseQueryAll (E : Ext) (s0 : Str) : Out (QQ × Str) :=
   else if w = kADD then parseAdd E s
   else if w = kDELETE then parseDelete E s
   else .err "syntax"
+
+/-! ## printing (`Assignment::to_string`, and `Query::to_string` for the two mutating query types) -/
+
+def CKind.kw : CKind → Str
+  | .comp => kCOMPOSITE
+  | .multi => kMULTI
+  | .dir => kDIRECTIONAL
+
+/-- the value of a DATA assignment as printed after the key: nothing for null. A float is printed by the code from its
+value (`{}` and `.0` when there is no period); the model, which keeps the literal, prints the literal: the two agree on
+literals in that form, which are the ones the correspondence check compares. -/
+def printAVal (showI : Int → Str) : AVal → Str
+  | .null => []
+  | .str s => ' ' :: quote s
+  | .bool true => [' ', 't', 'r', 'u', 'e']
+  | .bool false => [' ', 'f', 'a', 'l', 's', 'e']
+  | .int z => ' ' :: showI z
+  | .float l => ' ' :: l
+
+/-- `Assignment::to_string` -/
+def printAsg (showI : Int → Str) : Asg → Str
+  | .id s => kID ++ ' ' :: quote s ++ [';']
+  | .data set key v => kDATA ++ ' ' :: quote set ++ ' ' :: quote key ++ printAVal showI v ++ [';']
+  | .target name off => kTARGET ++ ' ' :: '?' :: name ++ offStr showI off ++ [';']
+  | .complex k => k.kw ++ [' ', ';']
+
+/-- the lines of the WITH clause: a tab, the assignment, a newline -/
+def asgLines (showI : Int → Str) (asgs : List Asg) : Str :=
+  (asgs.map (fun a => '\t' :: printAsg showI a ++ ['\n'])).flatten
+
+/-- the block of sub-queries after the text `s` written so far -/
+def withSubs (showI : Int → Str) (s : Str) (subs : List Q) : Option Str :=
+  match printSubs showI subs true with
+  | some st => some (if subs.isEmpty then s else ensureNewline (s ++ ['\n', '{', '\n'] ++ st) ++ ['}'])
+  | none => none
+
+/-- `Query::to_string` for a query of any type -/
+def printQQ (showI : Int → Str) : QQ → Option Str
+  | .select q => printQ showI q
+  | .add name asgs subs =>
+    withSubs showI (kADD ++ ' ' :: kANNOTATION ++ nameText name ++
+      (if asgs.isEmpty then [] else ' ' :: kWITH ++ '\n' :: asgLines showI asgs)) subs
+  | .delete name subs => withSubs showI (kDELETE ++ ' ' :: kANNOTATION ++ nameText name) subs
 
 end Stam.QL
